@@ -431,7 +431,20 @@ def r165(db, ctx):
         seq_ok = (m(('idx', ('fld', ('fld', ('p', 1), 'data'), 'sequences'), ('p', 2)), seq) is not None or
                   m(('call~', '::index', (('fld', ('fld', ('p', 1), 'data'), 'sequences'), ('p', 2))), seq) is not None)
         # dist.sample(rng) with dist = WeightedIndex::new(self.scores.iter().map(f)): one weight per valid position, in position order
-        val_ok = m(('call~', 'Distribution::sample', (('fld', ('down', ('call~', 'WeightedIndex::new', (('call~', 'Iterator::map', (('call~', 'StripedScores::iter', (('fld', ('p', 1), 'scores'),)), '_')),)), 'Ok'), '0'), '_')), v) is not None
+        val_ok = False
+        bw = m(('call~', 'Distribution::sample', (('fld', ('down', ('call~', 'WeightedIndex::new', ('$w',)), 'Ok'), '0'), '_')), v)
+        if bw is None:
+            bw = m(('call~', 'Distribution::sample', (('call~', ('Result::unwrap', 'Result::expect'), (('call~', 'WeightedIndex::new', ('$w',)),)), '_')), v)
+        if bw is not None:
+            from lm import reduce as RD
+            RC = RD.RCanon(db, u, R)
+            Lw = RD._fresh()
+            el = RC.elem_of(bw['$w'], Lw)
+            scores = ('fld', ('p', 1), 'scores')
+            # the k-th weight is a function of the k-th score only, one weight per valid position
+            if el is not None and el[1] == [('maxidx', scores)]:
+                ats = [x for x in X.walk(el[0]) if x[0] == 'at']
+                val_ok = bool(ats) and all(x == ('at', scores, ('pos', Lw)) for x in ats)
         buf_ok = norm(R.operand(sc[0][1]['args'][3])) == ('fld', ('p', 1), 'scores')
         ok = zi is not None and seq_ok and val_ok and buf_ok and u.dominates(sc[0][0], st[0]['block'])
     (ctx.ok if ok else ctx.fail)('R16.5', u, 'starts[z] = index sampled among scores.iter() of sequences[z] (L+1-M valid positions)', *([['R1.3: max_index = L+1-M']] if ok else ['resampled start is not an index into the scores of the held-out sequence']))
